@@ -28,12 +28,37 @@ func timeIsZero(t Value) bool {
 func (m *Machine) timeNs(t Value) Value {
 	st := t.(Struct)
 	if st[0].(uint64) == 0 {
-		z := int64(zeroTimeNs); return uint64(z)
+		z := int64(zeroTimeNs)
+		return uint64(z)
+	}
+	if st[0].(uint64) == 2 {
+		// whole seconds (time.Unix(sec, 0)): ns = sec * 1e9
+		return m.binop(token.MUL, i64T, st[1], uint64(1_000_000_000), i64T)
 	}
 	if st[0].(uint64) != 1 {
 		m.unsupported("time.Time value not produced by the time model (wall=%d)", st[0].(uint64))
 	}
 	return st[1]
+}
+
+// timeSecs returns (seconds, true) for times known to be whole seconds.
+func timeSecs(t Value) (Value, bool) {
+	st := t.(Struct)
+	if st[0].(uint64) == 2 {
+		return st[1], true
+	}
+	return nil, false
+}
+
+// timeCmp applies a comparison to two times, on seconds when both are whole
+// seconds (avoids multiplying symbolic values by 1e9).
+func (m *Machine) timeCmp(op token.Token, a, b Value) Value {
+	if x, ok := timeSecs(a); ok {
+		if y, ok := timeSecs(b); ok {
+			return m.binop(op, i64T, x, y, i64T)
+		}
+	}
+	return m.binop(op, i64T, m.timeNs(a), m.timeNs(b), i64T)
 }
 
 func (m *Machine) now() Value {
@@ -58,6 +83,9 @@ func init() {
 		return m.timeSub(a[0], m.timeFromNs(m.now()))
 	})
 	reg("time.Unix", func(m *Machine, fr *frame, a []Value) Value {
+		if z, ok := a[1].(uint64); ok && z == 0 {
+			return Struct{uint64(2), a[0], (*Value)(nil)}
+		}
 		ns := m.binop(token.ADD, i64T, m.binop(token.MUL, i64T, a[0], uint64(1_000_000_000), i64T), a[1], i64T)
 		return m.timeFromNs(ns)
 	})
@@ -72,13 +100,13 @@ func init() {
 	})
 	tm("Sub", func(m *Machine, fr *frame, a []Value) Value { return m.timeSub(a[0], a[1]) })
 	tm("After", func(m *Machine, fr *frame, a []Value) Value {
-		return m.binop(token.GTR, i64T, m.timeNs(a[0]), m.timeNs(a[1]), i64T)
+		return m.timeCmp(token.GTR, a[0], a[1])
 	})
 	tm("Before", func(m *Machine, fr *frame, a []Value) Value {
-		return m.binop(token.LSS, i64T, m.timeNs(a[0]), m.timeNs(a[1]), i64T)
+		return m.timeCmp(token.LSS, a[0], a[1])
 	})
 	tm("Equal", func(m *Machine, fr *frame, a []Value) Value {
-		return m.binop(token.EQL, i64T, m.timeNs(a[0]), m.timeNs(a[1]), i64T)
+		return m.timeCmp(token.EQL, a[0], a[1])
 	})
 	tm("Compare", func(m *Machine, fr *frame, a []Value) Value {
 		x, y := m.timeNs(a[0]), m.timeNs(a[1])
@@ -94,7 +122,11 @@ func init() {
 	tm("UnixNano", func(m *Machine, fr *frame, a []Value) Value { return m.timeNs(a[0]) })
 	tm("Unix", func(m *Machine, fr *frame, a []Value) Value {
 		if timeIsZero(a[0]) {
-			z := int64(-62135596800); return uint64(z)
+			z := int64(-62135596800)
+			return uint64(z)
+		}
+		if sv, ok := timeSecs(a[0]); ok {
+			return sv
 		}
 		return m.floorDiv(m.timeNs(a[0]), 1_000_000_000)
 	})
@@ -197,7 +229,8 @@ func (m *Machine) timeSub(t, u Value) Value {
 	case tz && uz:
 		return uint64(0)
 	case tz:
-		z := int64(-1 << 63); return uint64(z)
+		z := int64(-1 << 63)
+		return uint64(z)
 	case uz:
 		return canon(uint64(int64(1<<63-1)), 64, true)
 	}
